@@ -61,7 +61,7 @@ CHECKS = {
  "C13": dict(
     level="exploration", design="2/C13",
     technique="runtime monitor: component oracle with taint markers over an exhaustive URI component grid plus seeded random URIs",
-    text="Targets are assembled from known components (110592-point grid over scheme x host form x port x user-info x path x query, plus random), user-info and query carry markers; the canonical printer-uri from the helper and from all 9 URI-taking constructors is split by an independent splitter and compared component-wise, the markers must not occur anywhere in the request bytes, and canonicalisation must be idempotent.",
+    text="Targets are assembled from known components (138240-point grid over scheme x host form x port x user-info x path x query, plus random), user-info and query carry markers; the canonical printer-uri from the helper and from all 9 URI-taking constructors is split by an independent splitter and compared component-wise, the markers must not occur anywhere in the request bytes, and canonicalisation must be idempotent.",
     note="Targets http::Uri refuses are counted and skipped."),
  "C14": dict(
     level="exploration", design="2/C14",
@@ -77,7 +77,7 @@ CHECKS = {
  "C15": dict(
     level="exploration", design="2/C15",
     technique="runtime cost monitoring on deterministic step measures: counting global allocator (bytes, calls) and cachegrind instruction counts over doubling input families; incremental-ratio oracle",
-    text="14 doubling families (nesting with/without member names and with multi-valued members, set width, set of collections, attribute/group/member count, value/name length, four malformed floods), both parsers, sizes 2 KiB to 256 KiB (thorough 1 MiB) for the allocation measure and 4 KiB to 64 KiB (thorough 1 MiB) under cachegrind. For consecutive doublings the incremental ratio (c(4n)-c(2n))/(c(2n)-c(n)) must stay <= 2.6 (n log n passes, quadratic gives 4) and allocated bytes <= 256 KiB + 1024 n. Wall clock is never a verdict; a series stops at its first violating doubling so a quadratic tree is reported at KiB sizes within seconds.",
+    text="19 doubling families (nesting with/without member names and with multi-valued members, set width, set of collections, attribute/group/member count in ascending, descending and shuffled name order, value/name length, invalid-UTF-8 names and values, four malformed floods), both parsers, sizes 2 KiB to 256 KiB (thorough 1 MiB) for the allocation measure and 4 KiB to 64 KiB (thorough 1 MiB) under cachegrind. For consecutive doublings the incremental ratio (c(4n)-c(2n))/(c(2n)-c(n)) must stay <= 2.6 (n log n passes, quadratic gives 4) and allocated bytes <= 256 KiB + 1024 n. Wall clock is never a verdict; a series stops at its first violating doubling so a quadratic tree is reported at KiB sizes within seconds.",
     note="Instruction counts include process start-up and input generation (linear, cancelled by the incremental ratio). Only the families listed are covered."),
  "C16": dict(
     level="exploration", design="2/C16",
@@ -109,7 +109,7 @@ CHECKS = {
  "C12": dict(
     level="exploration", design="2/C12",
     technique="runtime monitoring of a complete configuration matrix against a loopback rustls peer with freshly generated CAs; oracle on send() outcome and on decrypted bytes seen by the peer application (exhaustive: true)",
-    text="The finite matrix {blocking, async} x {native-tls, rustls} x ignore flag {unset, false, true} x extra root {none, correct PEM, correct DER, unrelated} x server certificate {valid, wrong host, expired, self-signed, unknown CA} = 240 cells is executed completely on every run (two harness builds, one per TLS backend, since the backends cannot be compiled together). A cell must accept exactly when the caller opted out or supplied the correct root for a valid leaf; in every rejected cell the peer application must not have received a single decrypted byte. Thorough repeats the matrix against TLS 1.2-only and 1.3-only peers.",
+    text="The finite matrix {blocking, async} x {native-tls, rustls} x ignore flag {unset, false, true} x extra root {none, correct PEM, correct DER, unrelated} x server certificate {valid, wrong host, expired, self-signed, unknown CA} x a second, tiny Ed25519 root family = 432 cells is executed completely on every run (two harness builds, one per TLS backend, since the backends cannot be compiled together). A cell must accept exactly when the caller opted out or supplied the correct root for a valid leaf; in every rejected cell the peer application must not have received a single decrypted byte. Thorough repeats the matrix against TLS 1.2-only and 1.3-only peers.",
     note="Certificates are generated with the openssl CLI at check time; trust decisions are those of the OpenSSL / rustls versions in this image."),
  "C18": dict(
     level="exploration", design="2/C18",
